@@ -18,7 +18,7 @@ class C14(Prop):
         "Stgutg.Props.C14.C14_alloc_bound_any", "Stgutg.Props.C14.C14_step_bound_any",
         "Stgutg.Props.C14.overclaim_example", "Stgutg.Props.C14.valid_example",
     ]
-    domains = [Domain("aper-dec", 400, 20000)]
+    domains = [Domain("aper-dec", 400, 8000)]
     rule = ("aper-dec: valid encodings of random NGAP PDUs / transfer containers (type-directed generator over the real ngapType structs), "
             "every ~5% prefix, 12 single bit/byte corruptions incl. adversarial length/count octets (0x00 0x7f 0x80 0xbf 0xc1 0xc4 0xff), "
             "appended garbage, and random strings, through ngap.Decoder / aper.UnmarshalWithParams; "
@@ -38,7 +38,8 @@ class C14(Prop):
     trusted_base = ["schema translator (go/ast over ngapType/*.go) and its re-implementation of aper.parseFieldParameters"]
     MAX_ALLOC = 64 << 20           # cumulative allocation while decoding an input of at most 4 KiB
     MAX_ALLOC_PER_OCTET = 4 << 10  # … per input octet for longer inputs (measured: about 1.9 KiB per octet for 16 384 minimal IEs)
-    MAX_NS = 2_000_000_000
+    MAX_NS = 2_000_000_000          # wall time of decoding an input of at most 4 KiB
+    MAX_NS_PER_OCTET = 100_000      # … per input octet for longer inputs (measured: 7 microseconds per octet on a loaded machine)
 
     def key(self, op, impl, model, spec):
         t = op.split(" ")
@@ -70,7 +71,12 @@ class C14(Prop):
             ctx.violations.append(dict(kind="violation", key="decode-alloc-per-octet", domain="aper-dec", op="(see measurements)",
                                        impl="allocated %d bytes per input octet for an input of %d octets" % (r["value"], r.get("input_len", -1)),
                                        model="", spec="", why="cumulative allocation above 4 KiB per input octet for an input longer than 4 KiB"))
+        t = ctx.stats.get("decode_max_ns_per_octet")
+        if t and t["value"] > self.MAX_NS_PER_OCTET:
+            ctx.violations.append(dict(kind="violation", key="decode-time-per-octet", domain="aper-dec", op="(see measurements)",
+                                       impl="took %d ns per input octet for an input of %d octets" % (t["value"], t.get("input_len", -1)),
+                                       model="", spec="", why="decode slower than 100 microseconds per input octet for an input longer than 4 KiB"))
         if n and n["value"] > self.MAX_NS:
             ctx.violations.append(dict(kind="violation", key="decode-time", domain="aper-dec", op="(see measurements)",
                                        impl="took %d ns for an input of %d octets" % (n["value"], n.get("input_len", -1)),
-                                       model="", spec="", why="decode slower than 2 s"))
+                                       model="", spec="", why="decode of an input of at most 4 KiB slower than 2 s"))
